@@ -178,7 +178,8 @@ def run_case(acc, case):
         calls.sort(key=lambda n: (n.lineno, n.col_offset))
         obs = [[a.value if isinstance(a, ast.Constant) else ast.dump(a)[:80] for a in c.args] for c in calls[:1]]
         if obs != case["expected"]:
-            if "\n" in case.get("rest", "") and [[x.replace("\n", "") if isinstance(x, str) else x for x in o] for o in obs] != obs or "\n" in case.get("rest", ""):
+            rest = case.get("rest", "")
+            if "\n" in rest and obs and obs[0] and obs[0][:-1] == case["expected"][0][:-1] and obs[0][-1] == rest.replace("\n", "").strip():
                 acc.finding("F07b", src[:80])
                 return
             acc.violation("subprocess-macro-text-not-verbatim", case, {"expected": case["expected"], "observed": obs})
